@@ -28,8 +28,10 @@ BASIC itself on a scratch disk):
   * after a tear: files recorded before the torn region keep satisfying all of the above as long as
     the search does not have to pass through the torn region; anything that touches the torn
     region may fail with any BASIC error or lose a tail, but may not crash the interpreter, give
-    Internal error (51), or - for truncation - return bytes of a data file that are not a prefix of
-    what was written.
+    Internal error (51), leave the device answering File already open, or deliver bytes that were
+    never recorded at that place: a torn data file must read as a prefix of what was written
+    (after a bit flip: of what was written with whole records missing), and the last file of the
+    tape, if a program or memory image and read without an error, must be what was saved or nothing.
 
 Deliberately left out: overwriting in the middle of a tape, names longer than 8 characters or
 with trailing blanks, reading a file with a statement of another type, ^Z inside data files
@@ -76,7 +78,7 @@ TYPES_FOR = {'D': 'D', 'L': 'ABP', 'G': 'A', 'M': 'M'}   # read statement kind -
 
 
 def quick_runs(prop):
-    return 2600
+    return 2000
 
 
 ###############################################################################
@@ -142,8 +144,8 @@ def _gen_name(rng, used):
     return s
 
 
-def _gen_data(rng, big, small):
-    flav = rng.choice(['raw', 'raw', 'raw', 'lines', 'fields'])
+def _gen_data(rng, big, small, raw=False):
+    flav = 'raw' if raw else rng.choice(['raw', 'raw', 'raw', 'lines', 'fields'])
     L = _pick_len(rng, 255, big)
     if small:
         L = min(L, 520)
@@ -242,13 +244,17 @@ def _gen_mem(rng, big, small):
     return {'page': rng.randint(1, 3), 'rel': round(rng.random(), 3), 'data': data}
 
 
-def _gen_write(rng, big, small, used):
+def _gen_write(rng, big, small, used, force=None):
     name = _gen_name(rng, used)
     used.append(name)
     r = rng.random()
+    if force == 'raw':
+        r = 0.0
+    elif force == 'M':
+        r = 0.9
     if r < 0.42:
         op = {'op': 'data', 'name': name}
-        op.update(_gen_data(rng, big, small))
+        op.update(_gen_data(rng, big, small, raw=(force == 'raw')))
         kind = 'D'
     elif r < 0.78:
         fmt = rng.choice(['B', 'A', 'A', 'P'])
@@ -293,7 +299,11 @@ def gen(rng, tier, prop):
     for i in range(nfiles):
         if i and (i in restart_before or rng.random() < 0.25):
             ops.append({'op': 'restart'})
-        op, kind = _gen_write(rng, big, small, used)
+        force = None
+        if torn and i == nfiles - 1:
+            # the file that will be torn: mostly one whose contents the torn-image oracle can judge
+            force = rng.choice(['raw', 'raw', 'M', None, None])
+        op, kind = _gen_write(rng, big, small, used, force)
         ops.append(op)
         written.append((op['name'], kind))
     ops.append({'op': 'restart'})
@@ -315,7 +325,7 @@ def gen(rng, tier, prop):
     if not torn or rng.random() < 0.5:
         reads(order)
     if torn:
-        ops.append({'op': 'tear', 'mode': rng.choice(['trunc', 'trunc', 'trunc', 'flip']),
+        ops.append({'op': 'tear', 'mode': rng.choice(['trunc', 'trunc', 'flip', 'flip']),
                     'frac': rng.choice([rng.random(), rng.random(), 0.999, 0.0, rng.random() * 0.1]),
                     'bit': rng.randrange(8)})
         order2 = list(written)
@@ -476,6 +486,13 @@ class Tape(object):
         self.last_err = None
         self.wound = False       # rewound by a miss (head before the intro)
 
+    def search_from(self, start, name, types):
+        for j in range(start, len(self.files)):
+            f = self.files[j]
+            if (not name or f.trunk.rstrip() == name.rstrip()) and f.typ in types:
+                return j
+        return None
+
     def search(self, name, types):
         """-> (index or None, [files passed over])."""
         skipped = []
@@ -505,7 +522,7 @@ class Exec(object):
         self.d = None
         self.ckpts = [(0, 0)]    # (image size, number of model files) at each close
         self.sessions = 0
-        self.wrote_in_session = False
+        self.wrote_before_session = None   # (index of the first file appended after a restart, session number)
 
     # -- sessions ---------------------------------------------------------
 
@@ -540,7 +557,11 @@ class Exec(object):
 
     # -- helpers ----------------------------------------------------------
 
+    override = None
+
     def V(self, sig, detail):
+        if self.override is not None:
+            sig, detail = self.override[0], self.override[1] + ' :: ' + detail
         self.run.violate('C29', sig, detail)
 
     def ex(self, line, **kw):
@@ -645,7 +666,8 @@ class Exec(object):
         t.files.append(f)
         t.pos = len(t.files)
         t.last_read = None
-        self.wrote_in_session = True
+        if self.sessions > 1 and len(t.files) > 1 and self.wrote_before_session is None:
+            self.wrote_before_session = (len(t.files) - 1, self.sessions)
 
     # memory blocks travel between the harness and video memory through BLOAD/BSAVE on a scratch disk
 
@@ -713,6 +735,13 @@ class Exec(object):
             if r.err is None and f is not None and kind == 'D' and got_msgs and got_msgs[-1] == f.msg(b'Found.') \
                     and f.op['flav'] == 'raw' and (self.torn_mode == 'trunc' or f is t.files[-1]):
                 self.read_raw_torn(f)
+            elif r.err is None and f is not None and f is t.files[-1] and got_msgs and got_msgs[-1] == f.msg(b'Found.'):
+                # the last file of the tape, found and read without an error: blocks are CRC-protected, so what was
+                # delivered is what was recorded or nothing at all (a lost record; nothing follows it on the tape)
+                if kind == 'M':
+                    self.check_mem_torn(f, off)
+                elif kind == 'L' and f.typ in ('B', 'P'):
+                    self.check_listing_torn(f)
             self.ex(b'CLOSE')
             if r.err is not None and r.err != 55 and t.torn_from > 0:
                 # the device must still be usable: look for an intact file (the first attempt may run off the end)
@@ -722,7 +751,7 @@ class Exec(object):
                 r2 = self.ex(probe)
                 run.probe('torn-error-then-search')
                 if r2.err == 55:
-                    self.V('stuck-open:after-error-%d' % r.err,
+                    self.V('stuck-open:after-miss-that-skipped-files' if r.err == 24 else 'stuck-open:after-error-%d' % r.err,
                            'torn image: %r failed with error %d after passing over %d header(s); then %r gave File already '
                            'open although no cassette file is open' % (stmt, r.err, len(got_msgs), probe))
                 self.ex(b'CLOSE')
@@ -777,10 +806,29 @@ class Exec(object):
             t.wound = True
             t.last_miss_skipped = len(skipped)
             return
-        run.probe('found')
+        run.probe('found:' + self.cfg['image'] + ':' + f.typ)
         if self.sessions > 1:
             run.probe('found-in-later-session')
+        if self.wrote_before_session and j >= self.wrote_before_session[0] and self.sessions > self.wrote_before_session[1]:
+            run.probe('found-appended-file-after-restart')
         ok = True
+        if prev_read is not None and prev_read.lenclass().endswith('len%255==254') and \
+                t.search_from(j + 1, name, types) is not None:
+            # if the header of file j was swallowed, a later file of the same name is what was found
+            self.override = ('next-file-lost-after:' + prev_read.lenclass(),
+                             'after reading %r (%d bytes) to its end, %r reports Found but delivers other contents; a later '
+                             'file matches the same search' % (prev_read.name, prev_read.L, stmt))
+        try:
+            ok = self.check_found(f, op, kind, off if kind == 'M' else None)
+        finally:
+            self.override = None
+        if not ok:
+            self.resync('content-mismatch')
+            return
+        t.pos = j + 1
+        t.last_read = f
+
+    def check_found(self, f, op, kind, off):
         if kind == 'D':
             ok = self.read_data(f, op)
             r2 = self.ex(b'CLOSE')
@@ -790,11 +838,7 @@ class Exec(object):
             ok = self.check_listing(f)
         else:
             ok = self.check_mem(f, off)
-        if not ok:
-            self.resync('content-mismatch')
-            return
-        t.pos = j + 1
-        t.last_read = f
+        return ok
 
     def lost_appended(self, stmt, exp, got, passed):
         """A file is missing that was appended right after a file of the len%255==254 class had been read to its end."""
@@ -862,6 +906,10 @@ class Exec(object):
         self.V('eof-late:' + f.lenclass(),
                'data file %r (%s, %d bytes as written): after %s EOF(1) is 0 and %d more byte(s) can be read: %r...; %s' % (
                    f.name, f.op['flav'], f.L, what, len(extra), extra[:24], note))
+
+    def eof_late_torn(self, f, extra):
+        self.V('eof-late:' + f.lenclass(), 'data file %r (%d bytes as written; in the torn part of the image but itself '
+               'complete): %d more byte(s) can be read after the end: %r...' % (f.name, f.L, len(extra), extra[:24]))
 
     def read_data(self, f, op):
         d = self.driver()
@@ -992,7 +1040,9 @@ class Exec(object):
             ok = stream[:len(got)] == got
         else:
             ok = _prefix_of_record_subsequence(got, stream, 255)
-        if not ok:
+        if not ok and f.L % 255 == 254 and got[:len(want) + 1] == stream:
+            self.eof_late_torn(f, got[len(want):])
+        elif not ok:
             self.V('torn-wrong-data:datafile:' + self.torn_mode,
                    'torn image (%s): data file %r returned bytes that were never recorded at that place: read %r, '
                    'recorded %r' % (self.torn_mode, f.name, _diff(got, want), _diff(want, got)))
@@ -1009,6 +1059,35 @@ class Exec(object):
                    'error %r' % (f.name, f.typ, f.L, i, len(f.listing), got[i:i + 1], f.listing[i:i + 1], r.err))
             return False
         return True
+
+    def check_listing_torn(self, f):
+        r = self.ex(b'LIST', poll_cap=100000)
+        got = [l for l in r.text.split(b'\r\n') if l]
+        self.run.probe('torn-program-checked')
+        if r.err is None and got and got != f.listing:
+            i = 0
+            while i < len(got) and i < len(f.listing) and got[i] == f.listing[i]:
+                i += 1
+            self.V('torn-wrong-data:program:' + self.torn_mode,
+                   'torn image (%s): LOAD of %r (type %s) reported no error but LIST differs at line index %d: got %r, '
+                   'saved %r' % (self.torn_mode, f.name, f.typ, i, got[i:i + 1], f.listing[i:i + 1]))
+
+    def check_mem_torn(self, f, off):
+        n = len(f.data)
+        got = self.get_mem(off - 8, n + 16)
+        pre = bytes(bytearray((x ^ 0x55) for x in bytearray(f.data)))
+        body = got[8:8 + n]
+        self.run.probe('torn-memory-checked')
+        k = 0
+        while k < n and body[k] == f.data[k]:
+            k += 1
+        if self.cfg.get('syntax') == 'tandy' or (n and f.data[-1:] == b'\x1a'):
+            return   # the tail is lost anyway (reported by the strict oracle)
+        if got[:8] != b'\xee' * 8 or got[8 + n:] != b'\xee' * 8 or body[k:] != pre[k:]:
+            self.V('torn-wrong-data:memory:' + self.torn_mode,
+                   'torn image (%s): BLOAD of %r reported no error but the block is neither the saved bytes nor untouched: '
+                   'first difference at offset %d of %d: got %r, saved %r' % (
+                       self.torn_mode, f.name, k, n, body[k:k + 8], f.data[k:k + 8]))
 
     def check_mem(self, f, off):
         n = len(f.data)
